@@ -14,13 +14,13 @@ from vf import automata, contracts, drivers, recipes
 PROPERTY = "C05"
 LEVEL = "fault_enumeration"
 SHARDS = {"quick": 4, "thorough": 16}
-REQUIRED = ["asgi-automaton", "wsgi-automaton", "fault-prefix", "fault-exception-identity", "wsgiref-validator", "reused-response-object"]
+REQUIRED = ["asgi-automaton", "wsgi-automaton", "fault-prefix", "fault-exception-identity", "wsgiref-validator", "reused-response-object", "one-object-two-connections-at-once"]
 RULE = ("Generated response recipes (every response class x statuses incl. unknown ones x header sets with mixed-case names and Latin-1 values x cookie lists x "
         "str/bytes/JSON content x 0/1/many-chunk streams x SSE event lists x files incl. 0-byte, non-ASCII file and download names, every Range outcome "
         "incl. 400/416) x GET/HEAD, run to completion on both interfaces and then once per fault point: WSGI close() after item n for every n, ASGI client "
         "disconnect after event n and send() failure at event n for every n, producer failure at every step. Non-trivial = a faulted run or a response with "
         "several body events; distinct = (recipe, method, range, interface, fault).")
-RULE += ' Also: redirect targets as URL objects, one response object used twice, header text the mapping must refuse (set / append / setdefault / update), the served file removed or truncated after the response object was built; a send-failure point that the faulted run does not reach (fewer keep-alive pings) is counted, not judged.'
+RULE += ' Also: any request method; one response object serving two connections at the same time; redirect targets as URL objects, one response object used twice, header text the mapping must refuse (set / append / setdefault / update), the served file removed or truncated after the response object was built; a send-failure point that the faulted run does not reach (fewer keep-alive pings) is counted, not judged.'
 ASSUMPTIONS = [
     "user-supplied values that cannot be represented on the wire (non-Latin-1 header values, hop-by-hop header names passed by the user) are outside the workload",
     "the ASGI zero-copy extension is offered in a third of the file cases and materialised by the emulator",
@@ -247,7 +247,7 @@ def run(ctx):
             hdrs = hdrs + rng.sample([("X-Request-ID", "req-7f3a"), ("Accept", "text/html, */*;q=0.8"), ("Accept-Encoding", "gzip, br"), ("Connection", "keep-alive"),
                                       ("Origin", "https://example.org"), ("X-Forwarded-For", "10.0.0.1"), ("Cookie", "a=1"), ("User-Agent", "verif/1.0"),
                                       ("Cache-Control", "no-cache"), ("TE", "trailers")], rng.randrange(1, 4))
-        todo.append((r, rng.choice(["GET", "GET", "HEAD"]), hdrs))
+        todo.append((r, rng.choice(["GET", "GET", "GET", "HEAD", "HEAD", "POST", "OPTIONS", "DELETE", "PUT"]), hdrs))  # "for every ... request": any method
     for i, (r, method, hdrs) in enumerate(todo):
         run_wsgi_case(ctx, r, method, hdrs, edges)
         run_asgi_case(ctx, r, method, hdrs, edges, zerocopy=(r["cls"] == "File" and i % 3 == 0))
@@ -296,6 +296,12 @@ def run(ctx):
                 for w, d in probs:
                     ctx.violation(f"{iface}|reuse|{w}|{r['cls']}", case, d)
                 ctx.case((iface, "reuse", repr(r), method, repr(hdrs), n))
+    # ---- one response object serving two connections AT THE SAME TIME (all calls made before any body is consumed; ASGI: tasks of one loop):
+    #      each connection on its own gets a complete, legal sequence
+    for i, (r, method, hdrs) in enumerate(todo):
+        if r.get("raise_at") is not None or i % 3 != 1 or r["cls"] == "SSE" or r.get("pause"):
+            continue
+        at_once(ctx, r, method, hdrs, edges)
     # ---- the body producer of a file response is the file: it vanishes (or is replaced by a shorter one) between the
     #      construction of the response and the request; whatever is emitted must still be a legal prefix
     import shutil
@@ -336,6 +342,33 @@ def run(ctx):
     ctx.monitors["header-hygiene-contract(icontract)"] = contracts.COUNTS["list_headers.post"]
 
 
+def at_once(ctx, r, method, hdrs, edges):
+    from baize import asgi, wsgi
+    if r["cls"] == "Stream":
+        r = dict(r, reiterable=True)
+    for iface, ns in (("wsgi", wsgi), ("asgi", asgi)):
+        random.seed(77)
+        try:
+            obj = recipes.response_from(ns, r)
+        except Exception:
+            continue
+        reqs = [drivers.Req(method=method, headers=hdrs), drivers.Req(method=method, headers=hdrs + [("X-Second", "1")])]
+        if iface == "wsgi":
+            results = drivers.run_wsgi_many(obj, [drivers.to_environ(q) for q in reqs])
+            allprobs = [automata.check_wsgi(res.events, edges=edges, once=True) for res in results]
+        else:
+            results = drivers.run_asgi_many(obj, [(drivers.to_scope(q), drivers.body_messages([]) + [{"type": "http.disconnect"}]) for q in reqs])
+            allprobs = [automata.check_asgi_http(res.sent, edges=edges) for res in results]
+        ctx.mon("one-object-two-connections-at-once")
+        for n, (res, probs) in enumerate(zip(results, allprobs)):
+            case = {"recipe": r, "method": method, "headers": hdrs, "iface": iface, "connections_at_once": 2, "connection": n}
+            if res.exc is not None:
+                ctx.violation(f"{iface}|at-once|exception|{type(res.exc).__name__}|{r['cls']}", case, repr(res.exc))
+            for w, d in probs:
+                ctx.violation(f"{iface}|at-once|{w}|{r['cls']}", case, d)
+        ctx.case((iface, "at-once", repr(r), method, repr(hdrs)))
+
+
 def replay(ctx, case):
     contracts.arm_list_headers()
     r = case["recipe"]
@@ -347,7 +380,9 @@ def replay(ctx, case):
         r["path"] = [f for f in files if os.path.basename(f) == os.path.basename(r["path"])][0]
     edges = Counter()
     hdrs = [tuple(h) for h in case["headers"]]
-    if case["iface"] == "wsgi":
+    if case.get("connections_at_once"):
+        at_once(ctx, r, case["method"], hdrs, edges)
+    elif case["iface"] == "wsgi":
         run_wsgi_case(ctx, r, case["method"], hdrs, edges)
     else:
         run_asgi_case(ctx, r, case["method"], hdrs, edges, case.get("zerocopy", False))
